@@ -197,6 +197,63 @@ def _power_law_running(F, R):
                 key="R7|" + nm)
 
 
+def _alpha_s_domain(F, R):
+    """alpha_s(Q; Lambda) of Eq. (9) hep-ph/0207126 contains log(log(Q^2/Lambda^2)): it is a number only for Q > Lambda.
+    Every call outside the bracketed root search must be dominated by a test that excludes Lambda >= Q (with a fallback)."""
+    R.rule("R8", "every evaluation of the alpha_s(Q, Lambda_QCD) formula outside the bracketed root search is dominated by an "
+                 "early exit for Lambda_QCD >= Q (it contains log(log(Q^2/Lambda^2))): the running masses stay finite for every "
+                 "alpha_s(MZ) the search accepts", 2)
+    tgt = [f for f in F.functions.values() if f["name"].endswith("::calculate_alpha_s_SM5_at") and f["file"] == "src/gm2_mf.cpp"]
+    if len(tgt) != 1:
+        R.soft_broken("R8: calculate_alpha_s_SM5_at not found")
+        return
+    n_sites = 0
+    for k, f in sorted(F.functions.items()):
+        if f["file"] != "src/gm2_mf.cpp" or "(anonymous class)" in f["name"] or "lambda" in f["name"].split("::")[-1].lower() and False:
+            continue
+        if "operator()" in f["name"]:
+            continue            # the residual of the root search: evaluated inside toms748's bracket, failures are caught (R5)
+        S = Struct(f)
+        Rr = Renderer(f, resolve_locals=False)
+        for n in walk(f["body"]):
+            if not (is_call(n) and n.get("mg") == tgt[0]["mg"]):
+                continue
+            # skip calls that sit inside a lambda body recorded in this function
+            if any(a.get("k") == "LambdaExpr" for a in S.ancestors(n)):
+                continue
+            n_sites += 1
+            args = call_args(n)
+            q, lam = strip_all(args[0]), strip_all(args[1])
+            ok, why = False, "no dominating early exit compares %s with %s" % (Rr.r(lam), Rr.r(q))
+            for b in S.executed_before(n):
+                if b.get("k") != "IfStmt" or not always_exits(b.get("then")):
+                    continue
+                c = strip_all(b["cond"])
+                if c.get("k") != "BinaryOperator" or c.get("op") not in (">=", ">", "<=", "<"):
+                    continue
+                l, r = strip_all(c["c"][0]), strip_all(c["c"][1])
+                ids_l = {x.get("id") for x in walk(l) if x.get("k") == "DeclRefExpr"}
+                ids_r = {x.get("id") for x in walk(r) if x.get("k") == "DeclRefExpr"}
+                lam_id, q_id = lam.get("id"), q.get("id")
+                if lam_id is None or q_id is None:
+                    continue
+                # Lambda >= f(Q ...)  or  f(Q ...) <= Lambda, where f is Q itself or min(Q, ...)
+                if c["op"] in (">=", ">") and lam_id in ids_l and q_id in ids_r:
+                    side = r
+                elif c["op"] in ("<=", "<") and lam_id in ids_r and q_id in ids_l:
+                    side = l
+                else:
+                    continue
+                txt = Rr.r(side)
+                if txt == Rr.r(q) or re.match(r"^(std::)?f?min\(", txt) or txt.startswith("min("):
+                    ok = True
+            R.check("R8", ok, "%s: alpha_s(%s, %s) only for %s < %s" % (f["name"].split("::")[-1], Rr.r(q), Rr.r(lam), Rr.r(lam), Rr.r(q)),
+                    F.loc(f, n), why + ": for Lambda_QCD >= %s the formula takes the logarithm of a non-positive number and the running "
+                    "mass is NaN" % Rr.r(q), key="R8|%s|%s" % (f["name"].split("::")[-1], Rr.r(q)))
+    if n_sites < 2:
+        R.soft_broken("R8: expected the two alpha_s evaluations of calculate_mb_SM6_MSbar, found %d" % n_sites)
+
+
 def _pow_one(t):
     if not isinstance(t, tuple) or not t:
         return t
@@ -578,6 +635,7 @@ def run(F, R, tier):
                 for g in bad[:3]), key="R6|statics")
 
     R.guard(_power_law_running, F, R)
+    R.guard(_alpha_s_domain, F, R)
 
     R.rule("R5", "calculate_lambda_qcd: a failing root search is caught (handler covers every exception the try "
                  "body may raise), warned about, and the default value is kept", 3)
